@@ -203,7 +203,7 @@ fn scan_both_ways(table: &CosetTable, w: &FreeWord, start: usize)
     let n = w.len();
     let (head, i) = scan(table, w, start, n);
     let (tail, j) = scan_inverse(table, w, start, n - i);
-    (head, tail, n - i - j, if i < n { w[i] } else { w[0] })
+    (head, tail, n - i - j, if i < n { w[i] } else if n > 0 { w[0] } else { 0 })
 }
 
 
